@@ -40,6 +40,9 @@ Rev(q) == IF q = <<>> THEN <<>> ELSE Rev(Tail(q)) \o <<q[1]>>
 ImpCases == {Mk("C19/imp/" \o kd \o "/" \o nm \o "/" \o st \o "/" \o ToString(i) \o (IF fwd THEN "" ELSE "r"),
                 Flat(LET ps == <<<<"-i", "$IN">>, <<"-o", "$OUT">>>> \o [j \in 1..Len(TargetLists[i]) |-> <<"-t", TargetLists[i][j]>>] IN IF fwd THEN ps ELSE Rev(ps)), nm, kd, st, "file", "dir")
              : kd \in {"okimp", "impbad"}, nm \in {"p.tsh", "sub/dir/q.tsh"}, st \in {"empty", "older"}, i \in 1..Len(TargetLists), fwd \in BOOLEAN}
+\* programs with nothing to execute (only uncalled functions, only comments, only an unused import, no bytes at all, blank lines)
+QuietCases == {Mk("C19/quiet/" \o kd \o "/" \o st \o "/" \o ToString(i), Flat(<<<<"-i", "$IN">>, <<"-o", "$OUT">>>> \o [j \in 1..Len(TargetLists[i]) |-> <<"-t", TargetLists[i][j]>>]), "p.tsh", kd, st, "file", "dir")
+               : kd \in {"funcsonly", "comment", "importonly", "empty", "blank"}, st \in {"empty", "older"}, i \in 1..Len(TargetLists)}
 BadCases == {Mk("C19/bad/" \o ToString(i) \o "/" \o st, Bad[i], "p.tsh", "ok", st, "file", "dir") : i \in 1..Len(Bad), st \in {"empty", "older"}}
-ASSUME ndJsonSerialize("fam.ndjson", SetToSeq(OrderCases \cup NameCases \cup MoreNameCases \cup BadCases \cup ImpCases))
+ASSUME ndJsonSerialize("fam.ndjson", SetToSeq(OrderCases \cup NameCases \cup MoreNameCases \cup BadCases \cup ImpCases \cup QuietCases))
 =============================================================================
